@@ -576,6 +576,28 @@ func runC02(r *ev.Run, rep *ev.ReplayDoc) ev.Summary {
 			}
 		}
 	}
+	// sweep: values whose trailing (or inner) blank runs meet the folding limit - pure ASCII, so not RFC 2047 encoded
+	for _, st := range []string{"Subject", "GenHeader", "GenHeaderMulti", "Organization", "UserAgent", "FileDescription", "PartDescription", "MessageID"} {
+		for wl := 30; wl <= 80; wl++ {
+			for _, k := range []int{1, 2, 3, 65, 80} {
+				for _, lead := range []string{"", "Hello "} {
+					n++
+					if !r.Thorough() && (wl+k+len(lead)+n)%3 != 0 {
+						continue
+					}
+					val := lead + strings.Repeat("w", wl-len(lead)) + strings.Repeat(" ", k)
+					if n%5 == 0 {
+						val = lead + strings.Repeat("w", wl-len(lead)) + strings.Repeat(" ", k) + "tail"
+					}
+					shape := "mixed"
+					if st == "PartDescription" {
+						shape = "alt"
+					}
+					cases = append(cases, c02Case{Enc: encs[n%3], Shape: shape, Values: map[string]string{st: val}, Classes: map[string]string{st: "blank-run-at-fold"}})
+				}
+			}
+		}
+	}
 	// combinations
 	m := r.Pick(40000, 600000)
 	for i := 0; i < m; i++ {
